@@ -11,6 +11,8 @@ import (
 	"os"
 	"strconv"
 	"strings"
+	"sync/atomic"
+	"time"
 
 	"github.com/glycerine/zygomys/v9/zygo"
 	"verif/harness/lib"
@@ -343,8 +345,27 @@ func render(v zygo.Sexp, d int) string {
 }
 
 type runner struct {
-	env  *zygo.Zlisp
-	used int
+	env     *zygo.Zlisp
+	used    int
+	cur     *os.File // the program being evaluated (prefix TAB source), for the check when the process dies
+	started int64    // unix nanoseconds when the current evaluation began; 0 = idle
+	onHang  func()
+}
+
+// watchdog: an evaluation that does not return within 30 s (a cyclic list built by a destructive
+// builtin, say) ends the run with exit code 97 after flushing what was compared so far
+func (r *runner) watchdog() {
+	for {
+		time.Sleep(time.Second)
+		st := atomic.LoadInt64(&r.started)
+		if st != 0 && time.Now().UnixNano()-st > int64(30*time.Second) {
+			if r.onHang != nil {
+				r.onHang()
+			}
+			fmt.Fprintln(os.Stderr, "c02b: evaluation did not return within 30 s; see the .current file")
+			os.Exit(97)
+		}
+	}
 }
 
 func (r *runner) fresh() {
@@ -366,7 +387,14 @@ func (r *runner) run(e *E, freshEnv bool) (string, string) {
 	for _, n := range c.order {
 		r.env.AddGlobal(n, c.globals[n])
 	}
+	if r.cur != nil {
+		r.cur.Truncate(0)
+		r.cur.Seek(0, 0)
+		fmt.Fprintf(r.cur, "%s\t%s\n", e.prefix(), src)
+	}
+	atomic.StoreInt64(&r.started, time.Now().UnixNano())
 	res := lib.Eval(r.env, src, 20000)
+	atomic.StoreInt64(&r.started, 0)
 	// the source shown in reports names the globals
 	shown := src
 	for _, n := range c.order {
@@ -756,6 +784,9 @@ func main() {
 	out.Rule = "nontrivial = the real interpreter returned a value or an error for a generated builtin-call tree (not BUDGET/PANIC)"
 	g := &gen{r: lib.NewRng(a.Seed*7919 + 13)}
 	rn := &runner{}
+	rn.cur, _ = os.Create(a.Out + ".current")
+	rn.onHang = func() { out.Close(a.Stats) }
+	go rn.watchdog()
 	emit2 := func(e *E, stream string, fresh bool) {
 		obs, src := rn.run(e, fresh)
 		tags := append(tagOf(e), "stream:"+stream, "outcome:"+obs[:1])
@@ -826,12 +857,12 @@ func main() {
 		emit2(iff(lit(x), lit(vI(1)), lit(vI(2))), "truthy", false)
 		emit2(call("not", call("not", lit(x))), "truthy", false)
 	}
+	for i := 0; i < nShare; i++ {
+		emit2(g.sharing(1+g.pick(2)), "sharing", false)
+	}
 	kinds := []byte("**LLAASSInnBBYCF")
 	for i := 0; i < nRandom; i++ {
 		emit2(g.expr(kinds[g.pick(len(kinds))], 2+g.pick(3), scope{}), "random", false)
-	}
-	for i := 0; i < nShare; i++ {
-		emit2(g.sharing(1+g.pick(2)), "sharing", false)
 	}
 	out.Close(a.Stats)
 }
